@@ -259,6 +259,12 @@ Definition rep_fun (id : Z) (inarr : bool) (key : list Z) (v : js) : js :=
     | Bool _ => tag [98; 111; 111; 108; 101; 97; 110]
     | _ => v
     end
+  else if id =? 14 then                  (* numbers / strings -> wrapper objects whose valueOf / toString is overridden *)
+    match v with
+    | Num _ _ _ => WNum 4631107791820423168 [52; 50] 2      (* ToNumber(value) = 42 *)
+    | Str _ => WStr [122; 122]                               (* ToString(value) = "zz" *)
+    | _ => v
+    end
   else v.
 
 (* 15.12.3 step 4.b: the property list K *)
@@ -481,9 +487,43 @@ Definition rev_fun (id : Z) (key : list Z) (v : ov) : ov :=
   else if id =? 5 then match v with OObj _ => ONull | _ => v end
   else if id =? 6 then match v with ONull => OUndef | OBool _ => OUndef | _ => v end
   else if id =? 7 then if key_eqb key [] then v else OUndef          (* delete every member *)
+  else if id =? 9 then match v with OUndef => OStr [68] | _ => v end    (* undefined -> "D" (refills what it cut off) *)
   else v.
 
 Definition is_undef (v : ov) : bool := match v with OUndef => true | _ => false end.
+
+(* revivers 8-12 also change their holder when it is an array (this.push / this.length = n /
+   this.pop / this.unshift), which 15.12.2 Walk must survive: len is read once, every index
+   below it is visited with whatever the array holds by then, the result is stored with
+   [[DefineOwnProperty]] (which extends the array) or removed with [[Delete]] *)
+Definition rev_eff (id : Z) (key : list Z) (a : list ov) : list ov :=
+  if id =? 8 then (if key_eqb key [48] then a ++ [OStr [80]] else a)                  (* k = "0": this.push("P") *)
+  else if id =? 9 then (if key_eqb key [49] then firstn 1 a else a)                   (* k = "1": this.length = 1 *)
+  else if id =? 10 then (if key_eqb key [48] then removelast a else a)                (* k = "0": this.pop() *)
+  else if id =? 11 then (if key_eqb key [48] then a ++ [OHole; OHole] else a)         (* k = "0": this.length += 2 *)
+  else if id =? 12 then                       (* k = "0" and no element is an object: this.unshift("U") *)
+    (if key_eqb key [48] && forallb (fun x => match x with OArr _ | OObj _ => false | _ => true end) a
+     then OStr [85] :: a else a)     (* (shifting an object would make it reachable twice: not a tree any more) *)
+  else a.
+
+(* array element i as [[Get]] sees it *)
+Definition arr_get (a : list ov) (i : nat) : ov :=
+  match nth_error a i with Some OHole | None => OUndef | Some x => x end.
+(* [[DefineOwnProperty]] of index i: the array grows (with holes) when i is beyond its end *)
+Fixpoint arr_set (a : list ov) (i : nat) (x : ov) : list ov :=
+  match i, a with
+  | O, [] => [x]
+  | O, _ :: r => x :: r
+  | S j, [] => OHole :: arr_set [] j x
+  | S j, y :: r => y :: arr_set r j x
+  end.
+(* [[Delete]] of index i: a hole, nothing beyond the end *)
+Fixpoint arr_del (a : list ov) (i : nat) : list ov :=
+  match i, a with
+  | _, [] => []
+  | O, _ :: r => OHole :: r
+  | S j, y :: r => y :: arr_del r j
+  end.
 
 Fixpoint rwalk (id : Z) (fuel : nat) (key : list Z) (v : ov) {struct fuel}
   : list (list Z * ov) * ov :=
@@ -493,11 +533,14 @@ Fixpoint rwalk (id : Z) (fuel : nat) (key : list Z) (v : ov) {struct fuel}
       let '(log, v') :=
         match v with
         | OArr l =>
-            let step := fun (acc : list (list Z * ov) * list ov * Z) (x : ov) =>
-                          let '(lg, out, i) := acc in
-                          let '(lg1, x') := rwalk id f (dec i) x in
-                          (lg ++ lg1, out ++ [if is_undef x' then OHole else x'], i + 1) in
-            let '(lg, out, _) := fold_left step l ([], [], 0) in
+            (* len = length l, fixed; the array itself is the running state *)
+            let step := fun (acc : list (list Z * ov) * list ov) (i : nat) =>
+                          let '(lg, a) := acc in
+                          let k := dec (Z.of_nat i) in
+                          let '(lg1, x') := rwalk id f k (arr_get a i) in
+                          let a1 := rev_eff id k a in
+                          (lg ++ lg1, if is_undef x' then arr_del a1 i else arr_set a1 i x') in
+            let '(lg, out) := fold_left step (seq 0 (length l)) ([], l) in
             (lg, OArr out)
         | OObj m =>
             let step := fun (acc : list (list Z * ov) * list (list Z * ov)) (kv : list Z * ov) =>
